@@ -686,6 +686,79 @@ def judge_pglform(inp, obs, lr):
     return None
 
 
+# integer packagings: the same matrices as int ndarrays (int64 / int32), stacks of them, and Python int lists where the
+# entry point documents array-likes (hyperbolic.sl2_iso / Isometry.from_sl2); lie.* document `ndarray` arguments
+INT_MAPS = ["irrep", "so21", "sl2_iso", "from_sl2", "gln", "sln", "slr", "blk", "so31", "hom_irrep", "hom_so21", "hom_gln", "hom_sln"]
+
+
+def int_fn(name, param):
+    if name == "sl2_iso":
+        return lambda M: np.swapaxes(np.asarray(H.sl2_iso(M).proj_data), -1, -2)
+    if name == "from_sl2":
+        return lambda M: np.swapaxes(np.asarray(H.Isometry.from_sl2(M).proj_data), -1, -2)
+    return map_fn(name, param)
+
+
+def gen_intpack(rng, n):
+    for _ in range(n):
+        name = rng.choice(INT_MAPS)
+        base = name[4:] if name.startswith("hom_") else name
+        k = 2 if base in ("irrep", "so21", "sl2_iso", "from_sl2", "so31") else rng.choice([2, 3, 4])
+        param = rng.choice([1, 2, 3, 4, 5, 6]) if base == "irrep" else (k + rng.choice([0, 1, 2]) if base == "blk" else None)
+        shape = rng.choice([[], [], [2], [2, 2]])
+        cnt = int(np.prod(shape)) if shape else 1
+        mats = []
+        for _ in range(2 * cnt):
+            while True:
+                M = [[rng.randint(-3, 3) for _ in range(k)] for _ in range(k)]
+                d = round(float(np.linalg.det(np.array(M, dtype=float))))
+                want_unimodular = base in ("so21", "sl2_iso", "from_sl2", "so31") or rng.random() < 0.4
+                if d != 0 and (abs(d) == 1 or not want_unimodular) and (d == 1 or base not in ("so31",)):
+                    break
+            mats.append(M)
+        packs = ["int64", "int32"] + (["list"] if base in ("sl2_iso", "from_sl2") else [])
+        yield {"map": name, "param": param, "k": k, "shape": shape, "A": mats[:cnt], "B": mats[cnt:], "pack": rng.choice(packs)}
+
+
+def _pack(mats, shape, k, pack):
+    a = np.array(mats, dtype=np.int64).reshape(tuple(shape) + (k, k))
+    if pack == "list":
+        return a.tolist()
+    return a.astype(pack)
+
+
+def run_intpack(inp):
+    f = int_fn(inp["map"], inp["param"])
+    k, shape = inp["k"], inp["shape"]
+    Ai, Bi = _pack(inp["A"], shape, k, inp["pack"]), _pack(inp["B"], shape, k, inp["pack"])
+    Af = np.array(inp["A"], dtype=float).reshape(tuple(shape) + (k, k))
+    Bf = np.array(inp["B"], dtype=float).reshape(tuple(shape) + (k, k))
+    ABi = (Af @ Bf).round().astype(np.int64)
+    ABi = ABi.tolist() if inp["pack"] == "list" else ABi.astype(inp["pack"])
+    ri, rf = np.asarray(f(Ai)), np.asarray(f(Af.copy()))
+    rb, rab = np.asarray(f(Bi)), np.asarray(f(ABi))
+    if ri.dtype == object:
+        return {"object_dtype": True}
+    sc = 1 + float(np.max(np.abs(rf)))
+    return {"shape_ok": ri.shape == rf.shape, "same": float(np.max(np.abs(ri - rf)) / sc) if ri.shape == rf.shape else float("inf"),
+            "hom": float(np.max(np.abs(rab - ri @ rb)) / (1 + float(np.max(np.abs(ri))) * float(np.max(np.abs(rb))))),
+            "dtype": str(ri.dtype)}
+
+
+def judge_intpack(inp, obs, lr):
+    base = inp["map"][4:] if inp["map"].startswith("hom_") else inp["map"]
+    tags0 = {"map": base, "via_hom": inp["map"].startswith("hom_"), "pack": inp["pack"], "array": len(inp["shape"]) > 0, "integer_input": True}
+    if "exc" in obs:
+        return {"expected": "the value computed for the same matrices as float64", "observed": obs, "tags": dict(tags0, exc=obs["exc"])}
+    if obs.get("object_dtype"):
+        return {"expected": "numeric array", "observed": "object dtype", "tags": dict(tags0, object_dtype=True)}
+    if not obs["shape_ok"] or not obs["same"] <= 1e-9:
+        return {"expected": "integer packaging gives the same value as float64", "observed": obs, "tags": dict(tags0, site="value")}
+    if not obs["hom"] <= 1e-8:
+        return {"expected": "f(A·B) = f(A)·f(B) on integer matrices", "observed": obs, "tags": dict(tags0, site="product")}
+    return None
+
+
 CLAUSES = [
     Clause("irrep_corr", "corr", gen_irrep, run_irrep, judge_irrep, lean=lean_irrep, site="lie.sl2_irrep",
            budget={"quick": 120, "thorough": 3000},
@@ -709,6 +782,10 @@ CLAUSES = [
            budget={"quick": 400, "thorough": 10000},
            what="f(A·B) = f(A)·f(B), f(1) = 1 for every map (irrep n=1..6, so21, gln/sln adjoint n=2..6, slc_to_slr, block_include, "
                 "sl2c_to_so31; direct and via lie.hom), single matrices and arrays of matrices, arrays = unit-by-unit"),
+    Clause("integer_oracle", "oracle", gen_intpack, run_intpack, judge_intpack, site="lie.* / lie.hom.* / hyperbolic.sl2_iso",
+           budget={"quick": 300, "thorough": 6000},
+           what="every Lie map on integer-dtype ndarrays (int64, int32), stacks of them, and Python int lists for sl2_iso / from_sl2: "
+                "same value as for float64 input, products to products"),
     Clause("structure_oracle", "oracle", gen_struct, run_struct, judge_struct, site="lie.*",
            budget={"quick": 300, "thorough": 8000},
            what="det sl2_irrep = 1; sl2_to_so21 preserves diag(-1,1,1), det ±1, sl2_iso stores it; sl2c_to_so31 real, preserves "
